@@ -54,6 +54,27 @@ def is_contextmanager_def(fn):
     return False
 
 
+PY_FMOD = z3.Function("py_float_mod", z3.RealSort(), z3.RealSort(), z3.RealSort())
+
+
+class RecDict(Model):
+    """`obj.__dict__` of a record: a live view of its fields (membership, item read / write / delete)"""
+
+    def __init__(self, rec):
+        self.rec = rec
+
+    def vf_contains(self, interp, key):
+        return key in self.rec.f
+
+    def vf_getitem(self, interp, key, node=None):
+        if key not in self.rec.f:
+            raise RaiseExc("KeyError", node)
+        return self.rec.f[key]
+
+    def vf_setitem(self, interp, key, value):
+        self.rec.f[key] = value
+
+
 class PartialM(Model):
     """functools.partial(f, *args, **kwargs)"""
 
@@ -191,6 +212,9 @@ class Interp:
         return FuncRef("builtin", name)
 
     def e_JoinedStr(self, n, env):
+        if "fstring" in self.world.extra_builtins:
+            # contract-supplied model of an f-string whose VALUE matters (additive, C21): gets the JoinedStr node and the environment
+            return self.world.extra_builtins["fstring"](self, [n, env], {})
         return Opaque("str")
 
     def e_Tuple(self, n, env):
@@ -511,6 +535,8 @@ class Interp:
             return z3.Select(container.term, self.world.box(x, container.elem))
         if isinstance(container, MapV):
             return z3.Select(container.dom, self.world.box(x, container.key_t))
+        if isinstance(container, Model) and hasattr(container, "vf_contains"):
+            return container.vf_contains(self, x)
         if isinstance(container, frozenset):
             if isinstance(x, (str, int)):
                 return x in container
@@ -534,6 +560,11 @@ class Interp:
 
     def binop(self, op, a, b, node=None):
         name = self.DUNDER[type(op)]
+        if (isinstance(a, Model) and hasattr(a, "vf_binop")) or (isinstance(b, Model) and hasattr(b, "vf_binop")):
+            # contract-defined value with operator behaviour (additive, C36): vf_binop(interp, name, other, swapped, node)
+            if isinstance(a, Model) and hasattr(a, "vf_binop"):
+                return a.vf_binop(self, name, b, False, node)
+            return b.vf_binop(self, name, a, True, node)
         if isinstance(a, Rec) or isinstance(b, Rec):
             if isinstance(a, Rec) and f"__{name}__" in a.cls.methods:
                 r = self.call_method(a, f"__{name}__", [b], {})
@@ -624,6 +655,12 @@ class Interp:
     def float_binop(self, op, a, b, node):
         x, y = real_of(a), real_of(b)
         self.ctx.float_ops.append((getattr(node, "lineno", None), type(op).__name__, a, b))
+        if isinstance(op, ast.FloorDiv):
+            # float // float over the reals (additive, C36): floor of the quotient (z3 ToInt is floor), as a float
+            if not self.ctx.branch(y != 0):
+                raise RaiseExc("ZeroDivisionError", node)
+            q = z3.ToInt(x / y)
+            return FloatV(z3.ToReal(q), q)
         if isinstance(op, ast.Add):
             return FloatV(x + y)
         if isinstance(op, ast.Sub):
@@ -642,6 +679,12 @@ class Interp:
             for _ in range(b):
                 r = r * x
             return FloatV(r)
+        if isinstance(op, ast.Mod):
+            # python float modulo: an UNINTERPRETED function of both operands (nothing is assumed about it, so whatever is
+            # proved holds for the real operation); a zero divisor raises
+            if not self.ctx.branch(y != 0):
+                raise RaiseExc("ZeroDivisionError", node)
+            return FloatV(PY_FMOD(x, y))
         raise Unsupp(f"float operation {type(op).__name__}")
 
     def seq_binop(self, op, a, b):
@@ -674,6 +717,8 @@ class Interp:
                 return BoundMethod(obj, attr)
             if attr == "__class__":
                 return FuncRef("class", obj.cls.name, obj.cls)
+            if attr == "__dict__":
+                return RecDict(obj)
             if attr in obj.cls.class_attrs:
                 return self.eval(obj.cls.class_attrs[attr], {})
             raise RaiseExc("AttributeError", node)
@@ -720,6 +765,8 @@ class Interp:
         return self.index(obj, idx, n)
 
     def index(self, obj, idx, node=None):
+        if isinstance(obj, Model) and hasattr(obj, "vf_getitem"):
+            return obj.vf_getitem(self, idx, node)
         if isinstance(idx, slice):
             return self.slice(obj, idx.start, idx.stop, idx.step)
         if isinstance(obj, Rec) and obj.cls.is_namedtuple:
@@ -1090,6 +1137,10 @@ class Interp:
         a = c.node.args
         for p, v in zip(a.args, args):
             env[p.arg] = v
+        if a.vararg is not None and len(args) >= len(a.args) and not kwargs and not a.kwonlyargs and not a.defaults:
+            # `lambda *x: ...` / `lambda a, *x: ...` (additive, C21): surplus positional arguments are bound to the vararg tuple
+            env[a.vararg.arg] = tuple(args[len(a.args):])
+            return self.eval(c.node.body, env)
         if len(args) != len(a.args):
             raise Unsupp("lambda arity")
         return self.eval(c.node.body, env)
@@ -1829,12 +1880,16 @@ class Interp:
         elif isinstance(t, ast.Subscript):
             obj = self.eval(t.value, env)
             idx = self.eval(t.slice, env)
-            if isinstance(obj, PyList) and isinstance(idx, int):
+            if isinstance(obj, Model) and hasattr(obj, "vf_setitem"):
+                obj.vf_setitem(self, idx, v)
+            elif isinstance(obj, PyList) and isinstance(idx, int):
                 if not -len(obj.items) <= idx < len(obj.items):
                     raise RaiseExc("IndexError")
                 obj.items[idx] = v
             elif isinstance(obj, dict) and isinstance(idx, (str, int)):
                 obj[idx] = v
+            elif isinstance(obj, dict) and isinstance(idx, tuple) and all(isinstance(x, (str, int)) and not isinstance(x, bool) for x in idx):
+                obj[idx] = v          # python dict keyed by a tuple of concrete ints / strings (additive, C21)
             elif isinstance(obj, Rec) and "__setitem__" in obj.cls.methods:
                 self.call_method(obj, "__setitem__", [idx, v], {})          # additive (C41)
             elif type(obj) is MapV or getattr(obj, "plain_map", False):
